@@ -125,15 +125,22 @@ type fnInfo struct {
 	text    string
 	params  []*types.Var
 	results []*types.Var
-	mutated []bool       // per parameter: stored into
-	globals []*types.Var // package-level scalar variables read (transitively), leading parameters
+	mutated []bool          // per parameter: stored into
+	globals []*types.Var    // package-level scalar variables read (transitively), leading parameters
+	errKeys map[string]bool // error values (ecode keys) the function or its callees can produce
+	errCmps []errCmp        // comparisons err == <error variable> to be validated at the end
+}
+
+type errCmp struct {
+	n   ast.Node
+	key string
 }
 
 type tr struct {
 	byObj  map[*types.Func]*fnInfo
 	all    []*fnInfo
 	order  []*fnInfo
-	ecodes map[string]bool
+	ecodes map[string]string // qualified name -> code (decimal text)
 	repo   string
 }
 
@@ -144,6 +151,11 @@ type fctx struct {
 	names map[types.Object]string
 	used  map[string]bool
 	tmp   int
+	// per statement: Go does not specify the order between a read of a variable and a call that
+	// modifies it inside ONE expression; such statements are refused
+	readMut   bool          // the statement reads a []byte parameter that is stored into
+	nestedMut bool          // a call that stores into a parameter occurs below the statement's top-level call
+	topCall   *ast.CallExpr // the call that IS the statement / its only right-hand side, if any
 }
 
 func (c *fctx) failf(n ast.Node, format string, a ...interface{}) {
@@ -366,9 +378,10 @@ func (c *fctx) constTerm(n ast.Node, tv types.TypeAndValue) (string, bool) {
 }
 
 func (c *fctx) errConst(n ast.Node, key string) string {
-	if !c.t.ecodes[key] {
+	if _, ok := c.t.ecodes[key]; !ok {
 		c.failf(n, "error value %q is not in the ecode table of coq/Lib/GoSem.v", key)
 	}
+	c.f.errKeys[key] = true
 	return fmt.Sprintf("(Some (ecode %q))", key)
 }
 
@@ -378,6 +391,27 @@ func (c *fctx) pkgLevelVar(obj types.Object) (*types.Var, bool) {
 		return nil, false
 	}
 	return v, v.Parent() == v.Pkg().Scope()
+}
+
+// the ecode key of an expression that names a package-level error variable, or ""
+func (c *fctx) errVarKey(e ast.Expr) string {
+	var id *ast.Ident
+	switch x := ast.Unparen(e).(type) {
+	case *ast.Ident:
+		id = x
+	case *ast.SelectorExpr:
+		id = x.Sel
+	default:
+		return ""
+	}
+	obj, ok := c.info.Uses[id].(*types.Var)
+	if !ok {
+		return ""
+	}
+	if gv, isG := c.pkgLevelVar(obj); isG && implementsError(gv.Type()) {
+		return qualName(gv)
+	}
+	return ""
 }
 
 func qualName(v *types.Var) string {
@@ -420,6 +454,11 @@ func (c *fctx) identTerm(id *ast.Ident) string {
 			c.failf(id, "package-level variable %s of type %s", gv.Name(), gv.Type())
 		}
 		c.coqType(id, o.Type())
+		for i, p := range c.f.params {
+			if p == o && c.f.mutated[i] {
+				c.readMut = true
+			}
+		}
 		return c.nameOf(o)
 	}
 	c.failf(id, "identifier %s (%T)", id.Name, obj)
@@ -659,7 +698,21 @@ func (c *fctx) binary(x *ast.BinaryExpr) (pre []string, term string) {
 			} else if id, ok := ast.Unparen(x.X).(*ast.Ident); ok && id.Name == "nil" {
 				other = x.Y
 			} else {
-				c.failf(x, "comparison of two error values (only == nil / != nil is translated)")
+				// err == <package-level error variable>: identity of error values, decided on the codes;
+				// validated at the end of the function (errCmps)
+				key, side := c.errVarKey(x.Y), x.X
+				if key == "" {
+					key, side = c.errVarKey(x.X), x.Y
+				}
+				if key == "" {
+					c.failf(x, "comparison of two error values (only == nil, != nil and == <package-level error variable> are translated)")
+				}
+				if _, ok := c.t.ecodes[key]; !ok {
+					c.failf(x, "error value %q is not in the ecode table of coq/Lib/GoSem.v", key)
+				}
+				c.f.errCmps = append(c.f.errCmps, errCmp{x, key})
+				p, a := c.expr(side)
+				return p, neg(fmt.Sprintf("(gerr_is %s (ecode %q))", a, key))
 			}
 			p, a := c.expr(other)
 			return p, neg("(is_nil " + a + ")")
@@ -679,6 +732,12 @@ func (c *fctx) binary(x *ast.BinaryExpr) (pre []string, term string) {
 			return pre, neg("(beqb " + a + " " + b + ")")
 		}
 		c.failf(x, "comparison %s on %s", x.Op, lt)
+	}
+	// string concatenation
+	if isString(t) && x.Op == token.ADD {
+		p1, a := c.expr(x.X)
+		p2, b := c.expr(x.Y)
+		return append(p1, p2...), "(" + a + " ++ " + b + ")%list"
 	}
 	// arithmetic on integers
 	bits, signed, ok := intTypeInfo(t)
@@ -795,6 +854,7 @@ func (c *fctx) call(x *ast.CallExpr) (pre []string, terms []string) {
 				if !isBytesLike(c.info.TypeOf(x.Args[1])) {
 					c.failf(x, "copy from %s", c.info.TypeOf(x.Args[1]))
 				}
+				c.noteMut(x)
 				p1, name, off := c.storeDest(x.Args[0])
 				p2, src := c.expr(x.Args[1])
 				n := c.fresh()
@@ -823,6 +883,7 @@ func (c *fctx) call(x *ast.CallExpr) (pre []string, terms []string) {
 		t := c.fresh()
 		return append(p, fmt.Sprintf("do %s <- gbe_load %d %s;", t, loadLib[full], a)), []string{t}
 	case putLib[full] != 0:
+		c.noteMut(x)
 		p1, name, off := c.storeDest(x.Args[0])
 		p2, v := c.expr(x.Args[1])
 		pre = append(append(p1, p2...), fmt.Sprintf("do %s <- gput %s %s (gbe %d %s);", name, name, off, putLib[full], v))
@@ -845,6 +906,9 @@ func (c *fctx) call(x *ast.CallExpr) (pre []string, terms []string) {
 	if callee.state != 2 {
 		c.failf(x, "call of %s, whose translation failed", full)
 	}
+	for k := range callee.errKeys {
+		c.f.errKeys[k] = true
+	}
 	// receiver: only the empty struct BinaryProtocol (no state), dropped
 	var args []string
 	for _, g := range callee.globals {
@@ -857,6 +921,7 @@ func (c *fctx) call(x *ast.CallExpr) (pre []string, terms []string) {
 			if !ok {
 				c.failf(a, "argument for a parameter the callee stores into must be a []byte parameter of the caller")
 			}
+			c.noteMut(x)
 			n := c.mutParamName(id)
 			args = append(args, n)
 			pats = append(pats, n)
@@ -945,12 +1010,34 @@ func (c *fctx) lhsName(e ast.Expr) string {
 	return c.nameOf(v)
 }
 
+func (c *fctx) noteMut(x *ast.CallExpr) {
+	if x != c.topCall {
+		c.nestedMut = true
+	}
+}
+
+func (c *fctx) checkOrder(n ast.Node) {
+	if c.readMut && c.nestedMut {
+		c.failf(n, "one expression both reads a []byte parameter and contains a call that stores into it: Go does not specify the order")
+	}
+	c.readMut, c.nestedMut, c.topCall = false, false, nil
+}
+
+func soleCall(es []ast.Expr) *ast.CallExpr {
+	if len(es) != 1 {
+		return nil
+	}
+	call, _ := ast.Unparen(es[0]).(*ast.CallExpr)
+	return call
+}
+
 // block translates a statement list; k yields the translation of what follows the block.
 func (c *fctx) block(depth int, list []ast.Stmt, k func(depth int) string) string {
 	if len(list) == 0 {
 		return k(depth)
 	}
 	rest := func(d int) string { return c.block(d, list[1:], k) }
+	c.readMut, c.nestedMut, c.topCall = false, false, nil
 	switch s := list[0].(type) {
 	case *ast.EmptyStmt:
 		return rest(depth)
@@ -972,13 +1059,17 @@ func (c *fctx) block(depth int, list []ast.Stmt, k func(depth int) string) strin
 			if !ok {
 				c.failf(s, "return of a single non-call expression for %d results", len(c.f.results))
 			}
+			c.topCall = call
 			pre, terms := c.call(call)
+			c.checkOrder(s)
 			return c.lines(depth, pre) + ind(depth) + c.retTerms(terms) + "\n"
 		}
 		if len(s.Results) != len(c.f.results) {
 			c.failf(s, "return of %d values for %d results", len(s.Results), len(c.f.results))
 		}
+		c.topCall = soleCall(s.Results)
 		pre, terms := c.exprsAs(s.Results, func(i int) types.Type { return c.f.results[i].Type() })
+		c.checkOrder(s)
 		return c.lines(depth, pre) + ind(depth) + c.retTerms(terms) + "\n"
 	case *ast.IfStmt:
 		if s.Init != nil {
@@ -987,6 +1078,7 @@ func (c *fctx) block(depth int, list []ast.Stmt, k func(depth int) string) strin
 			return c.block(depth, []ast.Stmt{s.Init, &inner}, rest)
 		}
 		pre, cond := c.expr(s.Cond)
+		c.checkOrder(s.Cond)
 		out := c.lines(depth, pre)
 		out += ind(depth) + "if " + cond + " then (\n"
 		out += c.block(depth+1, s.Body.List, rest)
@@ -1030,6 +1122,7 @@ func (c *fctx) block(depth int, list []ast.Stmt, k func(depth int) string) strin
 				pre = append(pre, fmt.Sprintf("let %s := %s in", c.nameOf(obj), val))
 			}
 		}
+		c.checkOrder(s)
 		return c.lines(depth, pre) + rest(depth)
 	case *ast.IncDecStmt:
 		t := c.info.TypeOf(s.X)
@@ -1043,7 +1136,10 @@ func (c *fctx) block(depth int, list []ast.Stmt, k func(depth int) string) strin
 		}
 		return ind(depth) + fmt.Sprintf("let %s := %s in\n", name, wrapTo(t, "("+name+op+")")) + rest(depth)
 	case *ast.AssignStmt:
-		return c.lines(depth, c.assign(s)) + rest(depth)
+		c.topCall = soleCall(s.Rhs)
+		pre := c.assign(s)
+		c.checkOrder(s)
+		return c.lines(depth, pre) + rest(depth)
 	case *ast.ExprStmt:
 		call, ok := s.X.(*ast.CallExpr)
 		if !ok {
@@ -1054,7 +1150,9 @@ func (c *fctx) block(depth int, list []ast.Stmt, k func(depth int) string) strin
 				return ind(depth) + "Panic 9\n"
 			}
 		}
+		c.topCall = call
 		pre, _ := c.call(call) // results, if any, are discarded
+		c.checkOrder(s)
 		return c.lines(depth, pre) + rest(depth)
 	}
 	c.failf(list[0], "statement %T", list[0])
@@ -1146,6 +1244,7 @@ func (c *fctx) switchStmt(depth int, s *ast.SwitchStmt, rest func(int) string) s
 		c.failf(s, "switch on %s", c.info.TypeOf(s.Tag))
 	}
 	pre, tag := c.expr(s.Tag)
+	c.checkOrder(s.Tag)
 	tv := c.fresh()
 	pre = append(pre, fmt.Sprintf("let %s := %s in", tv, tag))
 	var def *ast.CaseClause
@@ -1389,6 +1488,21 @@ func (t *tr) translate(f *fnInfo) {
 		}
 		return ind(depth) + c.retTerms(nil) + "\n"
 	})
+	// err == K is decided on codes: sound when every error value that can reach the comparison
+	// and is not K has another code.  Error values reach it only from this function's own
+	// constants and from its callees (no error-typed parameters).
+	for _, cmp := range f.errCmps {
+		for _, p := range f.params {
+			if isErrorIface(p.Type()) {
+				c.failf(cmp.n, "comparison of error values in a function with an error-typed parameter")
+			}
+		}
+		for k := range f.errKeys {
+			if k != cmp.key && t.ecodes[k] == t.ecodes[cmp.key] {
+				c.failf(cmp.n, "comparison with %s is ambiguous: %s has the same code in the ecode table", cmp.key, k)
+			}
+		}
+	}
 	var sb strings.Builder
 	fmt.Fprintf(&sb, "(* %s  %s *)\n", c.relpos(f.decl), signatureText(f))
 	var notes []string
@@ -1460,7 +1574,7 @@ Open Scope Z_scope.
 `
 }
 
-func readEcodes(path string) (map[string]bool, error) {
+func readEcodes(path string) (map[string]string, error) {
 	b, err := os.ReadFile(path)
 	if err != nil {
 		return nil, err
@@ -1470,9 +1584,9 @@ func readEcodes(path string) (map[string]bool, error) {
 	if i < 0 || j < i {
 		return nil, fmt.Errorf("%s: ecode table markers not found", path)
 	}
-	out := map[string]bool{}
-	for _, m := range regexp.MustCompile(`\("([^"]+)",\s*-?\d+\)`).FindAllStringSubmatch(s[i:j], -1) {
-		out[m[1]] = true
+	out := map[string]string{}
+	for _, m := range regexp.MustCompile(`\("([^"]+)",\s*(-?\d+)\)`).FindAllStringSubmatch(s[i:j], -1) {
+		out[m[1]] = m[2]
 	}
 	if len(out) == 0 {
 		return nil, fmt.Errorf("%s: empty ecode table", path)
@@ -1484,7 +1598,17 @@ func main() {
 	repo := flag.String("repo", "/repo", "repository root")
 	outDir := flag.String("out", "", "directory for Funcs.v (stdout when empty)")
 	sem := flag.String("sem", "", "path of coq/Lib/GoSem.v (for the ecode table)")
+	allOf := flag.String("all-of", "", "self-test: <import path>=<short name>; translate every function of that package of -repo instead of the whitelist")
 	flag.Parse()
+	if *allOf != "" {
+		kv := strings.SplitN(*allOf, "=", 2)
+		if len(kv) != 2 {
+			fmt.Fprintln(os.Stderr, "gotrans: -all-of wants <import path>=<short name>")
+			os.Exit(2)
+		}
+		pkgShort = map[string]string{kv[0]: kv[1]}
+		whitelist = nil
+	}
 
 	if *sem == "" {
 		fmt.Fprintln(os.Stderr, "gotrans: -sem <coq/Lib/GoSem.v> is required")
@@ -1507,7 +1631,11 @@ func main() {
 	}
 	var patterns []string
 	for p := range pkgShort {
-		patterns = append(patterns, "./"+strings.TrimPrefix(p, modPath))
+		if *allOf != "" {
+			patterns = append(patterns, p)
+		} else {
+			patterns = append(patterns, "./"+strings.TrimPrefix(p, modPath))
+		}
 	}
 	sort.Strings(patterns)
 	pkgs, err := packages.Load(cfg, patterns...)
@@ -1548,7 +1676,10 @@ func main() {
 					continue
 				}
 				sp := fnSpec{short, recvName(fd), fd.Name.Name}
-				decls[sp] = &fnInfo{spec: sp, pkg: p, decl: fd, obj: obj, coqName: "g_" + short + "_" + fd.Name.Name}
+				if *allOf != "" {
+					whitelist = append(whitelist, sp)
+				}
+				decls[sp] = &fnInfo{spec: sp, pkg: p, decl: fd, obj: obj, coqName: "g_" + short + "_" + fd.Name.Name, errKeys: map[string]bool{}}
 			}
 		}
 	}
